@@ -37,9 +37,9 @@ def _val():
 
 @st.composite
 def dx_case(draw, big=False):
-    if big and draw(st.integers(0, 9)) == 0:
+    if draw(st.integers(0, 9 if big else 39)) == 0:
         dims = [1, 1, 1]
-        dims[draw(st.integers(0, 2))] = draw(st.integers(1000, 1100))
+        dims[draw(st.integers(0, 2))] = draw(st.integers(995, 1100))  # four-digit grid counts
     else:
         dims = [draw(st.integers(1, 14)) for _ in range(3)]
     n = dims[0] * dims[1] * dims[2]
@@ -58,6 +58,10 @@ def dx_case(draw, big=False):
             min_size=0, max_size=8,
         )  # fmt: skip
     )
+    if draw(st.integers(0, 59)) == 0:
+        # more than 9999 atoms (five-digit atom count and serials in the cube header / atom block)
+        na = draw(st.integers(9998, 10050))
+        atoms = [(float(i % 97) + 0.125, float(i % 89) - 20.5, float(i % 83) + 3.25, ((i % 7) - 3) * 0.1, 1.0 + (i % 5) * 0.2) for i in range(na)]
     return dict(
         part="dx", dims=dims, vals=vals,
         origin=[draw(st.one_of(strat.fl(-100.0, 100.0), strat.fl(-1e4, 1e4))) for _ in range(3)],
